@@ -31,7 +31,7 @@ warnings.filterwarnings('ignore')
 
 def run(chk, replay=None):
     broken = chk.lean(['Lcapy/Props/C03.lean'],
-                      helper_files=['Lcapy/Proofs/Linear.lean', 'Lcapy/Proofs/MNA.lean', 'Lcapy/Model/MNA.lean',
+                      helper_files=['Lcapy/Proofs/Linear.lean', 'Lcapy/Proofs/LinearN.lean', 'Lcapy/Proofs/MNA.lean', 'Lcapy/Model/MNA.lean',
                                     'Lcapy/Model/Sources.lean', 'Lcapy/Model/Decompose.lean', 'Lcapy/Spec/Laws.lean'],
                       leanchecker=(chk.tier == 'thorough'))
     drv = chk.get_driver()
